@@ -156,12 +156,12 @@ pub fn run_sequence(seed: u64, cov: &mut Coverage) -> Option<Violation> {
         };
         let rd = DynamicTickArrayLoader::load_mut(&mut ad.0[8..MAXLEN]).update_tick(tick, spacing, &upd).is_ok();
         let pu = p_update(&upd);
-        let rpf = std::panic::catch_unwind(std::panic::AssertUnwindSafe(|| {
+        let rpf = crate::rt::guarded((|| {
             let a: &mut pv::MemoryMappedFixedTickArray = unsafe { &mut *(pf.0.as_mut_ptr() as *mut pv::MemoryMappedFixedTickArray) };
             pv::TickArray::update_tick(a, tick, spacing, &pu).is_ok()
         }))
         .unwrap_or(false);
-        let rpd = std::panic::catch_unwind(std::panic::AssertUnwindSafe(|| {
+        let rpd = crate::rt::guarded((|| {
             let a: &mut pv::MemoryMappedDynamicTickArray = unsafe { &mut *(pd.0.as_mut_ptr() as *mut pv::MemoryMappedDynamicTickArray) };
             pv::TickArray::update_tick(a, tick, spacing, &pu).is_ok()
         }))
@@ -213,8 +213,8 @@ pub fn run_sequence(seed: u64, cov: &mut Coverage) -> Option<Violation> {
             cov.probe("accessor_sequence_queries");
             let a1 = fa.get_tick(q, spacing).ok();
             let a2 = da.get_tick(q, spacing).ok();
-            let p1 = std::panic::catch_unwind(std::panic::AssertUnwindSafe(|| pv::TickArray::get_tick(pfa, q, spacing).ok())).unwrap_or(None);
-            let p2 = std::panic::catch_unwind(std::panic::AssertUnwindSafe(|| pv::TickArray::get_tick(pda, q, spacing).ok())).unwrap_or(None);
+            let p1 = crate::rt::guarded((|| pv::TickArray::get_tick(pfa, q, spacing).ok())).unwrap_or(None);
+            let p2 = crate::rt::guarded((|| pv::TickArray::get_tick(pda, q, spacing).ok())).unwrap_or(None);
             let exp: Option<&Tick> = if q >= start && q < start + width && (q - start) % sp == 0 && (decode::MIN_TICK..=decode::MAX_TICK).contains(&q) { Some(&model[((q - start) / sp) as usize]) } else { None };
             let ok = match exp {
                 None => a1.is_none() && a2.is_none() && p1.is_none() && p2.is_none(),
